@@ -541,7 +541,7 @@ def hp_drift(scripts, traces):
     compared = bad = 0
     first = None
     for sc in scripts:
-        if 'hp-model' not in sc.get('tags', []) or sc['cfg'].get('kind') != 'HP':
+        if 'dict-model' not in sc.get('tags', []) or sc['cfg'].get('kind') not in ('HP', 'BUP'):
             continue
         tr = traces.get(sc['tid'])
         if not tr:
@@ -560,7 +560,7 @@ def hp_drift(scripts, traces):
                 first = first or dict(tid=sc['tid'], op=o['op'], predicted=ex,
                                       recorded={k: e.get(k) for k in list(ex) if k in e})
                 break
-    return dict(compared=compared, disagreements=bad, first=first, model='HP.tla')
+    return dict(compared=compared, disagreements=bad, first=first, model='HP.tla / BUP.tla')
 
 
 def run_parser(ctx, fam):
@@ -591,16 +591,26 @@ def run_parser(ctx, fam):
             kind = KINDS[i % len(KINDS)]
             scripts.append(parser_ops_to_script('parser-walk-%d-%d' % (ctx.seed, i), ops, kind, ['tlc-walk']))
     if mix.get('hp'):
-        log('[%s] design model check + transition cover of HP.tla (hash parser with the real slot function)' % ctx.prop)
-        hist = vlib.tlc_cover(ctx, 'HP.tla', 'HP_T.cfg' if t else 'HP_q.cfg', limit=(6000 if t else mix['hp']),
-                              seed=ctx.seed, timeout=3000)
-        for i, ops in enumerate(hist):
-            begin = dict(ops[0])
-            begin.pop('op')
-            begin.pop('expect', None)
-            kind = 'HP' if i % 3 != 2 else 'BHP'      # BHP shares the dictionary (no prediction for it)
-            cfgd = dict(begin, kind=kind)
-            scripts.append(dict(tid='hp-cover-%d' % i, comp='parser', cfg=cfgd, ops=ops[1:], tags=['hp-model', kind]))
+        # implementation-shaped dictionary models with the real slot function:
+        # HP.tla (also run on BHP, which shares the dictionary) and BUP.tla.
+        # The quick tier runs one of the two per property, the thorough tier both.
+        models = [('HP.tla', 'HP_q.cfg', 'HP_T.cfg', 'HP'), ('BUP.tla', 'BUP_q.cfg', 'BUP_T.cfg', 'BUP')]
+        if not t:
+            models = [models[0]] if ctx.prop in ('C01', 'C03', 'C15') else [models[1]]
+        for mod, cq, ct, mk in models:
+            log('[%s] design model check + transition cover of %s (dictionary with the real slot function)' % (ctx.prop, mod))
+            hist = vlib.tlc_cover(ctx, mod, ct if t else cq, limit=(6000 if t else mix['hp']), seed=ctx.seed, timeout=3000)
+            for i, ops in enumerate(hist):
+                begin = dict(ops[0])
+                begin.pop('op')
+                begin.pop('expect', None)
+                kind = mk
+                if mk == 'HP' and i % 3 == 2:
+                    kind = 'BHP'      # BHP shares the dictionary (no prediction for it)
+                cfgd = dict(begin, kind=kind)
+                cfgd.pop('BucketSize', None) if kind != 'BUP' else None
+                scripts.append(dict(tid='%s-cover-%d' % (mk.lower(), i), comp='parser', cfg=cfgd, ops=ops[1:],
+                                    tags=['dict-model', kind]))
         fam = dict(fam, _drift=hp_drift)
     for gen, n in mix.get('go', []):
         scripts += vlib.go_gen(ctx, gen, n * scale, ctx.seed)
